@@ -182,6 +182,20 @@ def bundles(col, seed):
         got = fs.map(lambda info: None, max_workers=W, worker_type="thread")
         if got != [None] * n:
             col.violation("map-none-results-lost", dict(rep, observed=got))
+        # (e) extra positional / keyword arguments: every task gets exactly them (given as a list and as a tuple), and
+        #     the caller's containers are left alone
+        def with_args(a, b, info, k=None):              # typhon appends the FileInfo AFTER the user's positional arguments
+            return (tree.ids([info])[0], a, b, k)
+        for label, extra in (("list", [10, 20]), ("tuple", (10, 20))):
+            kwargs = {"k": 5}
+            keep = list(extra)
+            got = fs.map(with_args, args=extra, kwargs=kwargs, max_workers=W, worker_type="thread")
+            got2 = [v for _, v in fs.imap(with_args, args=extra, kwargs=kwargs, max_workers=W, worker_type="thread", return_info=True)]
+            col.count(2)
+            want = [(i, 10, 20, 5) for i in range(1, n + 1)]
+            if got != want or got2 != want or list(extra) != keep or kwargs != {"k": 5}:
+                col.violation("map-extra-arguments-wrong-" + label, dict(rep, expected=want[:3], observed={"map": got[:4], "imap": got2[:4],
+                                                                                                         "args_after": list(extra)}))
         col.nontrivial.add(("bundles", seed))
     except Exception as ex:
         col.violation("bundles-raise-" + type(ex).__name__, {"abstract": {"n": n}, "observed": repr(ex)[:300]})
@@ -189,6 +203,58 @@ def bundles(col, seed):
         gate.close()
         FM.ThreadPoolExecutor = saved
         tree.remove()
+
+
+def compressed_fileset(col, fmt):
+    """A fileset whose files carry a compression suffix, processed twice through the SAME object: contents in file order,
+    the FileInfo handed back names the stored file (not a temporary copy), and the second pass equals the first."""
+    import datetime as dt
+    import tempfile
+    from typhon.files import FileSet
+    from typhon.files.handlers.common import FileHandler
+    root = tempfile.mkdtemp(prefix="verif-c10-")
+    try:
+        def reader(file_info):
+            with open(file_info.path) as f:
+                return f.read()
+        def writer(data, file_info):
+            with open(file_info.path, "w") as f:
+                f.write(data)
+        fs = FileSet(os.path.join(root, "{year}{month}{day}.txt." + fmt), handler=FileHandler(reader=reader, writer=writer),
+                     max_threads=2)
+        days = [dt.datetime(2020, 2, 27) + dt.timedelta(days=i) for i in range(5)]
+        for d in days:
+            fs[d] = "content of %s" % d.strftime("%Y%m%d")
+        want_paths = [os.path.join(root, d.strftime("%Y%m%d") + ".txt." + fmt) for d in days]
+        want = ["content of %s" % d.strftime("%Y%m%d") for d in days]
+        rep = {"abstract": {"files": 5, "compression": fmt}}
+        for rnd in (1, 2):
+            for api in ("map", "imap", "collect", "icollect"):
+                try:
+                    if api == "map":
+                        res = fs.map(lambda content: content, on_content=True, return_info=True, worker_type="thread", max_workers=2)
+                    elif api == "imap":
+                        res = list(fs.imap(lambda content: content, on_content=True, return_info=True, worker_type="thread", max_workers=2))
+                    elif api == "collect":
+                        infos, data = fs.collect(return_info=True, max_workers=2)
+                        res = list(zip(infos, data))
+                    else:
+                        res = list(fs.icollect(return_info=True, max_workers=2))
+                except Exception as ex:
+                    col.violation("compressed-%s-raises-%s-pass%d" % (api, type(ex).__name__, rnd), dict(rep, observed=repr(ex)[:200]))
+                    continue
+                col.count(1)
+                paths = [i.path for i, _ in res]
+                if [v for _, v in res] != want or paths != want_paths or not all(os.path.exists(p) for p in paths):
+                    col.violation("compressed-%s-wrong-info-or-content-pass%d" % (api, rnd),
+                                  dict(rep, expected=[os.path.basename(p) for p in want_paths],
+                                       observed={"paths": [os.path.basename(p) for p in paths], "values": [v for _, v in res][:3]}))
+        if sorted(os.listdir(root)) != sorted(os.path.basename(p) for p in want_paths):
+            col.violation("compressed-fileset-debris", dict(rep, observed=sorted(os.listdir(root))))
+        col.nontrivial.add(("compressed", fmt))
+    finally:
+        import shutil
+        shutil.rmtree(root, ignore_errors=True)
 
 
 def empty_selection(col, _):
@@ -430,6 +496,7 @@ def run(ctx):
                 "INVARIANT CacheMinimal\nINVARIANT ErrorsOnlyFromFailures\nINVARIANT PrefixRight\nPROPERTY Terminates\n" % (2 if quick else 3))
     ctx.tlc(d, "AlignDesign", "MCAlign.cfg", workers=16, timeout=2400)
     pmap(ctx, empty_selection, [0], procs=1)
+    pmap(ctx, compressed_fileset, ["gz", "zip", "bz2", "xz"], procs=1)
     pmap(ctx, bundles, [ctx.seed * 13 + i for i in range(12 if quick else 150)])
     pmap(ctx, align_case, [ctx.seed * 100 + i for i in range(160 if quick else 1500)])
     pmap(ctx, process_pool_run, [ctx.seed * 7 + i for i in range(4 if quick else 40)], procs=1)
